@@ -20,7 +20,9 @@ EXPLANATION = (
     "reach run-time values only in UpdateContextFromStatic.run and only through deepcopy; (f) in LenaSplit every branch "
     "that has _get_context contributes its context to the one list that is intersected (no further test such as "
     "non-emptiness, no early exit, no level limit) and every branch that has _set_context receives the enclosing "
-    "context, the only early return being for an empty context.  Does not decide the "
+    "context, the only early return being for an empty context; no method other than _set_context writes (update, setdefault, "
+    "update_recursively, update_nested) into an object that still shares dictionaries with a stored static-context field -- an alias "
+    "or a shallow copy handed to a recursive merge.  Does not decide the "
     "concrete context seen for a concrete tree.")
 RULES = {
     "C13-a": "FOLD: LenaSequence._set_context threads the context forwards through self._seq, set before get",
